@@ -138,6 +138,8 @@ def known_class(kind, op, ocs, r, b, declared):
         return "C26-natmut-rewrap"
     if op == "pow" and b.startswith("(okx float") and r.startswith("(ok "):
         return "C26-pow-negative-exponent"
+    if op == "pow" and b.startswith("(other complex") and r == "TypeError" and any(c in ("Float", "FloatMut") for c in ocs):
+        return "C26-pow-complex-result"
     return None
 
 
